@@ -36,7 +36,7 @@ func VP_C09_dynbt() {
 	} else {
 		f := vp.Choice(n + 1)
 		var v2 Value
-		e2 := v2.UnmarshalNBT(tag, &vpByteReader{b: b, fail: f})
+		e2 := v2.UnmarshalNBT(tag, &vpByteReader{b: b, fail: f, eof: vp.Bool()})
 		if f < r1.pos {
 			vp.Assert(e2 != nil, "failure before the value is complete is reported")
 		}
